@@ -10,6 +10,41 @@ package vamana
 //@   modifies g.isDirty
 //@   ensures result == old(g.isDirty) && !g.isDirty
 
+// Storable laws of a graph node (properties C03, C08, C10): the edge list is written under the
+// node's 'e' key with the edge-list codec, read back from the same key with the inverse codec -
+// a stored list of any length, also the empty one, is a node; only an absent key is "not found" -
+// deleted under the same key, and a cold scan recognises exactly the 'e' keys.
+//@ spec edgeKeyOf(key []byte, id uint64) bool = len(key) == 10 && key[0] == 'n' && key[9] == 'e' && le64at(key, 1) == id
+//@ func (*graphNode).IdFromKey
+//@   property C03 C08 C10
+//@   pure
+//@   arith bv
+//@   ensures result1 == (len(key) == 10 && key[0] == 'n' && key[9] == 'e')
+//@   ensures result1 ==> result0 == le64at(key, 1)
+//@ func (*graphNode).WriteTo
+//@   property C03 C08 C10
+//@   pure
+//@   arith bv
+//@   ensures ncalls(Put) == 1 && edgeKeyOf(callarg(Put, 1, 1), id)
+//@   ensures callarg(Put, 1, 2) == callres(EdgeListToBytes, 1, 0) && callarg(EdgeListToBytes, 1, 0) == g.edges
+//@   ensures (result == nil) == (callres(Put, 1, 0) == nil)
+//@ func (*graphNode).DeleteFrom
+//@   property C03 C08 C10
+//@   pure
+//@   arith bv
+//@   ensures ncalls(Delete) == 1 && edgeKeyOf(callarg(Delete, 1, 1), id)
+//@   ensures (result == nil) == (callres(Delete, 1, 0) == nil)
+//@ func (*graphNode).ReadFrom
+//@   property C03 C08 C10
+//@   pure
+//@   allocates
+//@   arith bv
+//@   ensures ncalls(Get) == 1 && edgeKeyOf(callarg(Get, 1, 1), id)
+//@   ensures (err == nil) == (callres(Get, 1, 0) != nil)
+//@   ensures err != nil ==> err == cache.ErrNotFound
+//@   ensures node != nil && node.Id == id
+//@   ensures err == nil ==> node.edges == callres(BytesToEdgeList, 1, 0) && callarg(BytesToEdgeList, 1, 0) == callres(Get, 1, 0)
+
 // ---- persisted index state (properties C08, C10): flush writes the vector store, the node
 // store and then the recorded maximum node id under the key the constructor reads back.
 //@ func (*IndexVamana).flush
